@@ -683,7 +683,8 @@ pub fn boundary_pairs() -> Vec<String> {
     let mut v = vec![];
     for a in firsts {
         for b in seconds {
-            v.push(format!("{}\n{}\n", a, b));
+            // (a statement starting with `(` continues the previous one unless a `;` separates them)
+            v.push(format!("{}{}\n{}\n", a, if b.starts_with('(') { ";" } else { "" }, b));
         }
     }
     v
